@@ -801,6 +801,10 @@ func Run(r *fw.Run) {
 		fw.Parallel(len(bigs), func(i int) {
 			b := bigs[i]
 			x := newCtx(b.n)
+			if b.n == 33 || b.n == 300 {
+				// signed heads with extension lines: format characters, and a line longer than 64 KiB
+				x.A.DefaultExtra = "operator note: 100% %s %d {} \\ \u00e9\n" + strings.Repeat("L", 70000) + "\n"
+			}
 			l := fw.NewLocal()
 			defer r.Merge(l)
 			for _, s0 := range []int{-1, 1, b.n / 2, b.n} {
